@@ -913,6 +913,10 @@ def grammar_seeds(dump, field="uf1", slots=("filter", "update", "updates", "dele
         for k, ch in succ[nt]:
             if ch in comp:
                 seeds.add((s, tuple(pre + [k] + comp[ch])))
+            # ... and the same key over an *array* of such values (operand lists: $and / $or / $concat / $in ...)
+            for k2, ch2 in succ.get(ch, []):
+                if k2 == "[]" and k != "[]" and ch2 in comp:
+                    seeds.add((s, tuple(pre + [k, "[]"] + comp[ch2])))
     # the same sub-grammars reached through the other walkers / contexts
     for s, ctx in (contexts if contexts is not None else CONTEXTS):
         nt = dump["slots"][s]
@@ -934,6 +938,9 @@ def grammar_seeds(dump, field="uf1", slots=("filter", "update", "updates", "dele
             for k, ch in succ.get(x, []):
                 if ch in comp:
                     seeds.add((s, tuple(ctx + local[x] + [k] + comp[ch])))
+                for k2, ch2 in succ.get(ch, []):
+                    if k2 == "[]" and k != "[]" and ch2 in comp:
+                        seeds.add((s, tuple(ctx + local[x] + [k, "[]"] + comp[ch2])))
                 if ch not in local:
                     local[ch] = local[x] + [k]
                     q.append(ch)
